@@ -407,10 +407,18 @@ func initRollingFileLogger(
 		normalMaxLevel = WarnLevel
 	}
 
+	// Without a logger-level layout the file appenders format the events
+	// themselves, so they need a layout of their own.
+	layout := f.Layout
+	if layout == nil {
+		layout = &TextLayout{BaseLayout: BaseLayout{FileLineLength: 48}}
+	}
+
 	// Create appenders for the normal log file
 	appenders := []*AppenderRef{
 		{
 			Appender: &RollingFileAppender{
+				Layout:   layout,
 				FileDir:  f.FileDir,
 				FileName: f.FileName,
 				Rotation: f.Rotation,
@@ -427,6 +435,7 @@ func initRollingFileLogger(
 	if f.Separate {
 		appenders = append(appenders, &AppenderRef{
 			Appender: &RollingFileAppender{
+				Layout:   layout,
 				FileDir:  f.FileDir,
 				FileName: f.FileName + ".wf",
 				Rotation: f.Rotation,
@@ -439,10 +448,10 @@ func initRollingFileLogger(
 		})
 	}
 
-	f.logger = fnLogger(f)
+	logger := fnLogger(f)
 
 	// Attach the final appender to the logger
-	switch x := f.logger.(type) {
+	switch x := logger.(type) {
 	case *SyncLogger:
 		x.AppenderRefs = AppenderRefs{AppenderRefs: appenders}
 	case *AsyncLogger:
@@ -456,6 +465,12 @@ func initRollingFileLogger(
 			return err
 		}
 	}
+
+	// The inner logger owns the buffer and worker in async mode.
+	if err := logger.Start(); err != nil {
+		return err
+	}
+	f.logger = logger
 	return nil
 }
 
@@ -469,8 +484,11 @@ func (f *RollingFileLogger) Write(b []byte) {
 	f.logger.Write(b)
 }
 
-// Stop stops all appenders.
+// Stop drains the inner logger, then stops all appenders.
 func (f *RollingFileLogger) Stop() {
+	if f.logger != nil {
+		f.logger.Stop()
+	}
 	for _, a := range f.appenders {
 		a.Stop()
 	}
